@@ -332,7 +332,43 @@ type fakeDest struct {
 	writes  int
 	calls   int
 	dlq     bool
+	batch   int
+	flushed bool
 	closed  chan struct{}
+}
+
+// batching mode (scenario db<d>=<b>): nothing is acknowledged until b records are buffered or
+// Stop(lastPosition) was called, then everything buffered is acknowledged in one reply.
+func (f *fakeDest) ackBatching(ctx context.Context) ([]connector.DestinationAck, error) {
+	for {
+		f.mu.Lock()
+		n := len(f.pending)
+		if n >= f.batch || (f.flushed && n > 0) {
+			recs := f.pending
+			f.pending = nil
+			var acks []connector.DestinationAck
+			var toks []string
+			for _, r := range recs {
+				acks = append(acks, connector.DestinationAck{Position: r.Position})
+				toks = append(toks, ackTok(r, true))
+			}
+			f.h.mu.Lock()
+			f.h.trace = append(f.h.trace, fmt.Sprintf("A:%d:%s", f.d, strings.Join(toks, "+")))
+			f.h.last = time.Now()
+			f.h.mu.Unlock()
+			f.mu.Unlock()
+			return acks, nil
+		}
+		f.mu.Unlock()
+		select {
+		case <-ctx.Done():
+			return nil, ctx.Err()
+		case <-f.closed:
+			return nil, nil
+		case <-f.cond:
+		case <-time.After(200 * time.Microsecond):
+		}
+	}
 }
 
 func newFakeDest(h *run, d int, replies string, writeF int) *fakeDest {
@@ -342,7 +378,17 @@ func newFakeDest(h *run, d int, replies string, writeF int) *fakeDest {
 func (f *fakeDest) ID() string                                        { return "dst" + strconv.Itoa(f.d) }
 func (f *fakeDest) Open(context.Context) error                        { return nil }
 func (f *fakeDest) Errors() <-chan error                              { return nil }
-func (f *fakeDest) Stop(context.Context, opencdc.Position) error      { return nil }
+func (f *fakeDest) Stop(context.Context, opencdc.Position) error {
+	// a batching destination flushes what it buffered up to the last position
+	f.mu.Lock()
+	f.flushed = true
+	f.mu.Unlock()
+	select {
+	case f.cond <- struct{}{}:
+	default:
+	}
+	return nil
+}
 func (f *fakeDest) Teardown(context.Context) error {
 	select {
 	case <-f.closed:
@@ -423,6 +469,9 @@ func ackTok(r opencdc.Record, ok bool) string {
 }
 
 func (f *fakeDest) Ack(ctx context.Context) ([]connector.DestinationAck, error) {
+	if f.batch > 0 {
+		return f.ackBatching(ctx)
+	}
 	f.mu.Lock()
 	k := f.calls
 	f.calls++
@@ -706,6 +755,7 @@ func (h *run) buildNodes() ([]stream.Node, []*stream.SourceNode) {
 	nodes = append(nodes, fanOut)
 	for d := 0; d < sc.m; d++ {
 		dest := newFakeDest(h, d, sc.dReplies[d], sc.dWriteF[d])
+		dest.batch = sc.dBatch[d]
 		ackerNode := &stream.DestinationAckerNode{Name: dest.ID() + "-acker", Destination: dest}
 		destinationNode := &stream.DestinationNode{Name: dest.ID(), Destination: dest, ConnectorTimer: noop.Timer{}}
 		metricsNode := &stream.MetricsNode{Name: dest.ID() + "-metrics", Histogram: histogram()}
